@@ -3,40 +3,75 @@
 Engine A (explicit-state BFS to fixpoint) over the real ATP_Store with a peer store.
 Oracle is a set of per-transition ledger constraints written from the property text and
 evaluated from public observations only (return values, get_balance, get_debt, get_state,
-get_statistics()['total_consumed']).
+get_statistics()['total_consumed']; the read-only views get_statistics / get_report are
+additionally held to the same non-negativity / debt-limit clauses by the `observe` operation).
+
+A root is a flat list
+    [budget, gtp, nadh, max_debt, loud, callback, debt_interest, peer_budget, peer_gtp, peer_nadh, peer_max_debt]
+(loud = constructed with silent=False, stdout captured; callback = a benign recording on_state_change;
+debt_interest None = constructor default). The constructor options apply to both stores.
 """
 from __future__ import annotations
 
-import copy
+import contextlib
+import io
 import threading
 
 from mc import explore
 
-from operon_ai.state.metabolism import ATP_Store, EnergyType, MetabolicState
+from operon_ai.state.metabolism import ATP_Store, EnergyType
 
 ET = {"ATP": EnergyType.ATP, "GTP": EnergyType.GTP, "NADH": EnergyType.NADH}
+IDX = {"ATP": 0, "GTP": 1, "NADH": 2}
 PEER_CFG = (2, 0, 0, 2)  # budget, gtp, nadh, max_debt
+PEER_RICH = (0, 1, 1, 0)  # GTP and NADH have capacity: cross-store GTP/NADH credits are not clipped to 0
+HUGE = 1000  # an amount above every capacity + debt limit explored
+_TAIL = [False, False, None, *PEER_CFG]
 
 
-def _mk(cfg):
+def R(b, g, n, d, loud=False, cb=False, di=None, peer=PEER_CFG):
+    return [b, g, n, d, loud, cb, di, *peer]
+
+
+def _norm(root):
+    root = list(root)
+    return root + _TAIL[len(root) - 4:]  # replays recorded before the option dimensions existed
+
+
+def _mk(cfg, opts, log):
     b, g, n, d = cfg
-    return ATP_Store(budget=b, gtp_budget=g, nadh_reserve=n, max_debt=d, silent=True)
+    loud, cb, di = opts
+    kw = {}
+    if di is not None:
+        kw["debt_interest"] = di
+    if cb:
+        kw["on_state_change"] = log.append  # benign: records the announced state, touches nothing
+    return ATP_Store(budget=b, gtp_budget=g, nadh_reserve=n, max_debt=d, silent=not loud, **kw)
 
 
 _UNCOPYABLE = (type(threading.Lock()), type(threading.RLock()), threading.Event, threading.Thread)
+_PLAIN = {int, float, bool, str, type(None)}
+_CONTAINERS = {list, dict, set}
 
 
-def _clone_store(cfg, s):
-    t = _mk(cfg)
+def _clone_store(cfg, opts, log, s):
+    t = _mk(cfg, opts, log)
+    d = t.__dict__
     for k, v in s.__dict__.items():
-        if isinstance(v, _UNCOPYABLE) or callable(v) and not isinstance(v, (int, float)):
-            continue
-        t.__dict__[k] = copy.copy(v) if isinstance(v, (list, dict, set)) else v
+        tv = type(v)
+        if tv in _PLAIN:
+            d[k] = v
+        elif tv in _CONTAINERS:
+            d[k] = tv(v)
+        elif isinstance(v, _UNCOPYABLE) or callable(v):
+            continue  # fresh lock / event / callback of the new object
+        else:
+            d[k] = v
     return t
 
 
 class State:
-    __slots__ = ("cfg", "main", "peer", "interest_seen")
+    __slots__ = ("cfg", "pcfg", "opts", "main", "peer", "logs", "last")
 
 
 def obs(s: ATP_Store):
@@ -50,8 +85,29 @@ def obs(s: ATP_Store):
     )
 
 
+def views(s: ATP_Store):
+    """The other public read-only views of the ledger: (name, atp, gtp, nadh, debt)."""
+    st = s.get_statistics()
+    rp = s.get_report()
+    s.get_transactions()
+    s.get_transactions(0)
+    s.get_transactions(1)
+    return [("get_statistics", st["atp"], st["gtp"], st["nadh"], st["debt"]),
+            ("get_report", rp.atp, rp.gtp, rp.nadh, rp.debt)]
+
+
 def worth(o):
     return o[0] + o[1] + o[2] - o[3]
+
+
+_QUICK_CORE = [(b, g, n, d) for b in (0, 3) for g in (0, 2) for n in (0, 2) for d in (0, 3)] + [(1, 0, 2, 3)]
+_THOROUGH_CORE = [(b, g, n, d) for b in (0, 1, 3) for g in (0, 2) for n in (0, 2) for d in (0, 3)] + [(5, 1, 3, 4), (2, 0, 3, 5)]
+# mid-size configurations that together reach every mechanism (zero capacities, NADH top-up, GTP, debt):
+# the constructor options are crossed with these
+_OPT_CFGS_QUICK = [(1, 0, 2, 3), (3, 2, 0, 3), (0, 0, 2, 3)]
+_OPT_CFGS_THOROUGH = [(1, 0, 2, 3), (3, 2, 0, 3), (0, 0, 2, 3), (3, 0, 2, 3), (0, 2, 2, 0), (3, 2, 2, 3)]
+_SINGLE_OPTS = [dict(loud=True), dict(cb=True), dict(di=0.0)]
+_ALL_OPTS = dict(loud=True, cb=True, di=0.0)
 
 
 class Model:
@@ -60,30 +116,53 @@ class Model:
         self.interest = interest
 
     def roots(self):
+        quick = self.tier == "quick"
         if self.interest:
-            # debts >= 10 make int(debt * 0.1) non-zero: the state space is then unbounded, explored to a depth
-            return [[1, 0, 0, 12], [0, 2, 2, 20]] if self.tier == "quick" else [[1, 0, 0, 12], [0, 2, 2, 20], [3, 0, 2, 11]]
-        if self.tier == "quick":
-            cfgs = [(b, g, n, d) for b in (0, 3) for g in (0, 2) for n in (0, 2) for d in (0, 3)] + [(1, 0, 2, 3)]
-        else:
-            cfgs = [(b, g, n, d) for b in (0, 1, 3) for g in (0, 2) for n in (0, 2) for d in (0, 3)]
-            cfgs += [(5, 1, 3, 4), (2, 0, 3, 5)]
-        return [list(c) for c in cfgs]
+            # debts >= 10 (or a rate >= 0.5 on small debts) make int(debt * rate) non-zero: the state space is
+            # then unbounded, explored to a depth
+            r = [R(1, 0, 0, 12), R(0, 2, 2, 20)]
+            if not quick:
+                r.append(R(3, 0, 2, 11))
+            r += [R(1, 0, 2, 3, di=1.0), R(3, 2, 0, 3, di=2.5, loud=True, cb=True), R(1, 0, 0, 12, di=0.0)]
+            if not quick:
+                r += [R(0, 0, 2, 3, di=0.5), R(3, 2, 2, 3, di=1.0), R(1, 1, 1, 1, di=1.0, peer=PEER_RICH),
+                      R(0, 2, 2, 20, di=0.0, loud=True, cb=True)]
+            return r
+        roots = [R(*c) for c in (_QUICK_CORE if quick else _THOROUGH_CORE)]
+        # constructor options crossed with core configurations: everything non-default at once on each mid-size
+        # configuration; each option alone on a small configuration (quick) / on the first three mid-size ones (thorough)
+        for i, c in enumerate(_OPT_CFGS_QUICK if quick else _OPT_CFGS_THOROUGH):
+            roots.append(R(*c, **_ALL_OPTS))
+            if not quick and i < 3:
+                roots += [R(*c, **o) for o in _SINGLE_OPTS]
+        if quick:
+            roots += [R(0, 2, 0, 3, loud=True), R(3, 0, 0, 3, cb=True), R(3, 0, 2, 0, di=0.0), R(0, 0, 0, 3, di=0.0)]
+        # a peer with capacity in the secondary currencies
+        roots.append(R(0, 2, 2, 0, peer=PEER_RICH))
+        if not quick:
+            roots += [R(1, 1, 1, 1, peer=PEER_RICH), R(1, 1, 1, 1, peer=PEER_RICH, **_ALL_OPTS), R(1, 1, 1, 1, peer=(1, 1, 1, 1))]
+        return roots
 
     def build(self, root):
+        root = _norm(root)
         st = State()
-        st.cfg = tuple(root)
-        st.main = _mk(st.cfg)
-        st.peer = _mk(PEER_CFG)
-        st.interest_seen = False
+        st.cfg = tuple(root[:4])
+        st.opts = tuple(root[4:7])
+        st.pcfg = tuple(root[7:11])
+        st.logs = ([], [])
+        with contextlib.redirect_stdout(io.StringIO()):
+            st.main = _mk(st.cfg, st.opts, st.logs[0])
+            st.peer = _mk(st.pcfg, st.opts, st.logs[1])
+        st.last = None
         return st
 
     def clone(self, st):
         c = State()
-        c.cfg = st.cfg
-        c.main = _clone_store(st.cfg, st.main)
-        c.peer = _clone_store(PEER_CFG, st.peer)
-        c.interest_seen = st.interest_seen
+        c.cfg, c.opts, c.pcfg = st.cfg, st.opts, st.pcfg
+        c.logs = (list(st.logs[0]), list(st.logs[1]))
+        c.main = _clone_store(st.cfg, st.opts, c.logs[0], st.main)
+        c.peer = _clone_store(st.pcfg, st.opts, c.logs[1], st.peer)
+        c.last = st.last
         return c
 
     def ops(self, st):
@@ -93,38 +172,69 @@ class Model:
                 for ad in (False, True):
                     for pr in (0, 5, 10):
                         o.append(("consume", "main", c, t, ad, pr))
-        for a in (0, 1, 4):
+        for t in ET:
+            for ad in (False, True):
+                # the capacity / debt-limit boundary amount and an amount above everything
+                o.append(("consume", "main", 3, t, ad, 0))
+                o.append(("consume", "main", 3, t, ad, 10))
+                if t != "ATP":
+                    # (a failed ATP spend tops ATP up from NADH by up to the cost, beyond capacity: with an
+                    # unbounded cost and NADH regeneration the reachable set would be infinite)
+                    o.append(("consume", "main", HUGE, t, ad, 10))
+            # priorities outside [0, 10]; operation label empty / left at its default
+            o.append(("consume", "main", 2, t, True, 100, ""))
+            o.append(("consume", "main", 2, t, True, -1, None))
+        for a in (0, 1, 2, 3, 4, HUGE):
             for t in ET:
                 o.append(("regenerate", "main", a, t))
-        for a in (1, 2):
+        for a in (0, 1, 2, 3):
             for t in ET:
                 o.append(("transfer", "main", "peer", a, t))
                 o.append(("transfer", "peer", "main", a, t))
-                o.append(("transfer", "main", "main", a, t))
-        o += [("convert", "main", 1), ("convert", "main", 3)]
-        o += [("dormant_in", "main"), ("dormant_out", "main"), ("interest", "main"), ("reset", "main")]
-        o += [("consume", "peer", 3, "ATP", True, 10), ("consume", "peer", 1, "ATP", False, 10), ("interest", "peer")]
+                if a < 3:
+                    o.append(("transfer", "main", "main", a, t))
+        for t in ET:
+            o.append(("transfer", "main", "peer", HUGE, t))
+        o += [("convert", "main", a) for a in (0, 1, 2, 3, HUGE)]
+        o += [("dormant_in", "main"), ("dormant_out", "main"), ("interest", "main"), ("reset", "main"),
+              ("observe", "main"), ("stop_regeneration", "main")]
+        o += [("consume", "peer", 3, "ATP", True, 10), ("consume", "peer", 1, "ATP", False, 10), ("interest", "peer"),
+              ("regenerate", "peer", 1, "ATP"), ("regenerate", "peer", 4, "ATP"), ("convert", "peer", 1),
+              ("transfer", "peer", "peer", 1, "ATP"), ("reset", "peer"), ("observe", "peer")]
         return o
 
     def canon(self, st):
         # total_consumed and the other audit counters are monotone and never read by an
         # operation: dropped from the key, their delta is checked per transition.
-        return (obs(st.main)[:5], obs(st.peer)[:5])
+        o = st.last or {"main": obs(st.main), "peer": obs(st.peer)}
+        return (o["main"][:5], o["peer"][:5])
 
     def observe(self, st):
-        return repr(self.canon(st))
+        m, p = self.canon(st)
+        return "%d,%d,%d,%d,%s|%d,%d,%d,%d,%s" % (m + p)
 
     def step(self, st, op):
+        st.last = None
+        if st.opts[0]:
+            with contextlib.redirect_stdout(io.StringIO()):
+                return self._step(st, op)
+        return self._step(st, op)
+
+    def _step(self, st, op):
         v = []
         stores = {"main": st.main, "peer": st.peer}
-        caps = {"main": st.cfg, "peer": PEER_CFG}
+        caps = {"main": st.cfg, "peer": st.pcfg}
         before = {k: obs(s) for k, s in stores.items()}
         kind = op[0]
         who = op[1]
         s = stores[who]
+        alt = None
         try:
             if kind == "consume":
-                ret = s.consume(op[2], "op", ET[op[3]], allow_debt=op[4], priority=op[5])
+                if len(op) > 6 and op[6] is None:
+                    ret = s.consume(op[2], energy_type=ET[op[3]], allow_debt=op[4], priority=op[5])
+                else:
+                    ret = s.consume(op[2], op[6] if len(op) > 6 else "op", ET[op[3]], allow_debt=op[4], priority=op[5])
             elif kind == "regenerate":
                 ret = s.regenerate(op[2], ET[op[3]])
             elif kind == "transfer":
@@ -139,11 +249,18 @@ class Model:
                 ret = s.apply_debt_interest()
             elif kind == "reset":
                 ret = s.reset()
+            elif kind == "observe":
+                obs(s)
+                alt = views(s)
+                ret = None
+            elif kind == "stop_regeneration":
+                ret = s.stop_regeneration()
             else:
                 raise AssertionError(op)
         except Exception as e:  # noqa: BLE001
             return [(f"raises:{kind}:{type(e).__name__}", f"{kind} raised {type(e).__name__}: {e}")]
         after = {k: obs(x) for k, x in stores.items()}
+        st.last = after
         dW = {k: worth(after[k]) - worth(before[k]) for k in stores}
         dWtot = sum(dW.values())
         for k in stores:
@@ -181,7 +298,7 @@ class Model:
                 v.append(("consume-return-type", f"consume returned {ret!r}"))
         elif kind == "regenerate":
             amt = op[2]
-            idx = {"ATP": 0, "GTP": 1, "NADH": 2}[op[3]]
+            idx = IDX[op[3]]
             cap = caps[who][idx]
             if after[who][idx] > max(cap, before[who][idx]):
                 v.append((f"regenerate-over-capacity:{op[3]}", f"{op[3]} {before[who][idx]}->{after[who][idx]} cap {cap}"))
@@ -200,7 +317,7 @@ class Model:
                 v.append(("regenerate-counted-as-consumption", ""))
         elif kind == "transfer":
             amt = op[3]
-            idx = {"ATP": 0, "GTP": 1, "NADH": 2}[op[4]]
+            idx = IDX[op[4]]
             dst = op[2]
             if dWtot > 0:
                 v.append((f"transfer-creates-energy:{op[4]}", f"total net worth +{dWtot}: {before} -> {after}"))
@@ -236,7 +353,19 @@ class Model:
             cfg = caps[who]
             if after[who][:4] != (cfg[0], cfg[1], cfg[2], 0):
                 v.append(("reset-not-initial", f"after reset {after[who]} expected balances {cfg[:3]} debt 0"))
-        # state gating sanity (one-directional: a gated state must refuse low priority)
+            if after[other] != before[other]:
+                v.append(("reset-touches-other-store", f"{other}: {before[other]} -> {after[other]}"))
+        elif kind in ("observe", "stop_regeneration"):
+            # read-only / housekeeping calls: the ledger (incl. metabolic state and audit counter) is untouched
+            if after != before:
+                v.append((f"{kind}-changes-ledger", f"{before} -> {after}"))
+            for name, *bal, debt in alt or ():
+                # the same clauses (balances >= 0, debt within its limit) on the other public views
+                if min(bal) < 0:
+                    v.append((f"negative-balance:view:{name}", f"{who} {name} shows balances {bal}"))
+                if debt < 0 or debt > max(caps[who][3], after[who][3]):
+                    v.append((f"debt-over-limit:view:{name}", f"{who} {name} shows debt {debt}, get_debt {after[who][3]}, "
+                              f"limit {caps[who][3]}"))
         return v
 
 
@@ -245,7 +374,9 @@ def run(ctx):
     depth = 40
     res = explore.explore(model, ctx, depth, validate_canon=0 if ctx.tier == "quick" else 300)
     idepth = 4 if ctx.tier == "quick" else 6
-    res2 = explore.explore(Model(ctx.tier, interest=True), ctx, idepth, label="A-interest")
+    imodel = Model(ctx.tier, interest=True)
+    res2 = explore.explore(imodel, ctx, idepth, label="A-interest")
+    nops = len(model.ops(None))
     ctx.coverage["interest_configs"] = {k: res2[k] for k in ("states", "transitions", "depth_completed", "fixpoint", "roots")}
     ctx.coverage.update(
         states=res["states"] + res2["states"],
@@ -253,13 +384,18 @@ def run(ctx):
         traces_validated_against_impl=res["transitions"] + res2["transitions"],
         evaluations=res["transitions"] + res2["transitions"],
         distinct_nontrivial=res["states"] + res2["states"],
-        rule="BFS over (main store, peer store) canonical states (atp,gtp,nadh,debt,metabolic state); every one of "
-        "~110 operations applied to the real ATP_Store in every reachable state; a case is non-trivial/distinct "
-        "= a distinct canonical state",
+        rule=f"BFS over (main store, peer store) canonical states (atp,gtp,nadh,debt,metabolic state); every one of "
+        f"{nops} operations applied to the real ATP_Store in every reachable state; a case is non-trivial/distinct "
+        "= a distinct canonical state of one root (configuration + constructor options + peer configuration)",
         exhaustive=bool(res["fixpoint"]),
         fixpoint=res["fixpoint"],
         depth_completed=res["depth_completed"],
         configurations=res["roots"],
+        operations_per_state=nops,
+        option_roots="silent=False (stdout captured), a recording on_state_change callback and debt_interest=0 are "
+        "crossed with mid-size core configurations (all together, and each alone); one root family uses a peer "
+        f"with GTP and NADH capacity {PEER_RICH}; debt_interest in {{0, 0.5, 1.0, 2.5}} in the depth-bounded "
+        "interest family",
         bounded_spend_argument="every transition satisfies: successful consume => dW=-cost; non-regenerating ops => "
         "dW<=0; balances>=0 and debt<=limit => W>=-limit; by induction total successful spend <= initial balances + "
         "debt limit on the explored graph",
@@ -267,10 +403,14 @@ def run(ctx):
     if not res["fixpoint"]:
         ctx.coverage["caps_hit"] = f"depth {depth} reached with {res['frontier_left']} frontier states left"
     ctx.assumptions += [
-        "amount alphabet {0,1,2,4,5}; capacities <= 5; results hold for all histories over this alphabet when fixpoint=true",
-        "regeneration_rate=0 (no background thread); interest on debts < 10 is zero by int() truncation",
+        f"amount alphabet {{0,1,2,3,4,5,{HUGE}}}; capacities <= 5; results hold for all histories over this alphabet when "
+        "fixpoint=true",
+        "regeneration_rate=0 (no background thread; a positive rate makes the history depend on wall-clock time); "
+        "interest on debts < 10 at the default rate is zero by int() truncation",
+        "on_state_change is a benign recording callback (what a raising or re-entrant callback means is outside the "
+        "statement); silent=False output is captured, its text is not judged",
     ]
 
 
 def replay(ctx, case):
-    return explore.replay_case(Model(ctx.tier, interest=case["root"][3] > 5), case)
+    return explore.replay_case(Model(ctx.tier), case)
